@@ -129,3 +129,15 @@ Require Import BV.gen.GenGatewayFn BV.proofs.GatewaySrc_proofs.
 Theorem c11_source_upcalls : forall st u,
   same_as (fst (handle_up st u)) (snd (handle_up st u)) st (py_up (gabs st) u).
 Proof. exact src_handle_up. Qed.
+
+(* the start-up wait completes on the NCP's software-reset acknowledgement (when no reset request is pending, which
+   would take it) *)
+Require Import BV.proofs.GatewayPos_proofs.
+Theorem c11_startup_wait_completes : forall st,
+  s_attr st = true -> s_fut st = FPend -> s_waiting st = true ->
+  (r_attr st = false \/ r_fut st <> FPend) ->
+  In (GStartupDone true) (snd (gstep st (GBatch [UReset RESET_SOFTWARE]))) /\
+  s_attr (fst (gstep st (GBatch [UReset RESET_SOFTWARE]))) = false /\
+  s_waiting (fst (gstep st (GBatch [UReset RESET_SOFTWARE]))) = false /\
+  s_fut (fst (gstep st (GBatch [UReset RESET_SOFTWARE]))) = FNone.
+Proof. exact startup_wait_completes. Qed.
